@@ -178,6 +178,8 @@ def build_field(cc, spec, **extra):
         kw["sensitive"] = spec["sensitive"]
     if spec.get("name"):
         kw["name"] = spec["name"]
+    if spec.get("help"):
+        kw["help"] = spec["help"]
     if kind == "str":
         return cc.StringField(**opts, **kw)
     if kind == "int":
